@@ -193,7 +193,7 @@ func c02JudgeMsgConsumer(x *c02Ctx, rec *consumerRec, sawVideoBefore bool) {
 		g := gotHdr[k]
 		if want[k] >= 0 {
 			if len(g) == 0 {
-				x.bad(kind, "missing-"+k.String(), "joiner did not receive the %s in force (published idx %d) before media; received %v", k, want[k], idxList(items, 12))
+				x.bad(kind, "missing-"+k.String(), "joiner did not receive the %s in force (published idx %d) before media; received %v; note=%q", k, want[k], idxList(items, 12), rec.Note)
 				return
 			}
 			if len(g) != 1 || g[0] != want[k] {
